@@ -97,6 +97,11 @@ func (mu *multiUseEntry) runConsumer(itera iterator.Producer[Value], done func(e
 	// not possible to iterate over a list at any time. Iteration is only possible
 	// synchronously with all iterators at the same time.
 	err = deepEvalLists(st, value)
+	if innerErr != nil {
+		// the second use happened while the lazy result was evaluated
+		done(innerErr)
+		return
+	}
 	mu.result = value
 	done(err)
 }
